@@ -14,3 +14,7 @@ func TestVerifC06Decorator(t *testing.T) {
 func TestVerifC01Decorator(t *testing.T) {
 	vs.Run(t, "C01", func(c *vs.Case) error { return vw.PropC01(c, decoratorFactory, "decorator") })
 }
+
+func TestVerifC02Decorator(t *testing.T) {
+	vs.Run(t, "C02", func(c *vs.Case) error { return vw.PropC02(c, decoratorFactory, "decorator") })
+}
